@@ -219,10 +219,7 @@ func runC15(res *Result, rng *RNG, tier string, outDir string) {
 			res.Violate("panic:print", "printing (or building) panicked: "+pan, rep)
 		}
 	}
-	cf := NewCasesFile("Base Term Lexer Parser Printer Corr2")
-	cf.Raw("Definition cases : list print_case := [\n  " + joinLines(lines) + "].\n")
-	cf.Raw("Definition M := Eval vm_compute in mismatches print_ok cases.\nPrint M.\n")
-	cf.WriteTo(outDir, "Cases_C15.v")
+	WriteShards(res, outDir, "C15", "Base Term Lexer Parser Printer Corr2", "", "print_case", "print_ok", lines, 150)
 	res.ModelCases = len(lines)
 	res.CaseDescs = descs
 }
